@@ -336,6 +336,14 @@ func (fc *FnCtx) loopWriteSet(li *LoopInfo) *WriteSet {
 			fc.instrWrites(in, ws, true)
 		}
 	}
+	if fc.contract != nil {
+		// ghost updates anchored at the exit of a loop (conservatively: any loop)
+		for _, aa := range fc.contract.Asserts {
+			if aa.Anchor == "loopexit" && aa.Set != nil {
+				ws.add("g_" + aa.Set.Name)
+			}
+		}
+	}
 	return ws
 }
 
@@ -395,6 +403,14 @@ func (fc *FnCtx) callWritesDepth(c ssa.CallInstruction, depth int) *WriteSet {
 	ws := newWS()
 	com := c.Common()
 	if b, ok := com.Value.(*ssa.Builtin); ok {
+		// ghost updates attached to a built-in call (calls append#k: set ...)
+		if c.Parent() == fc.fn && fc.contract != nil {
+			for _, cs := range fc.siteSpecs(c) {
+				for _, s := range cs.Sets {
+					ws.add("g_" + s.Name)
+				}
+			}
+		}
 		switch b.Name() {
 		case "append":
 			ws.add("alloc")
